@@ -323,6 +323,14 @@ def run(world, rep, tier, only=None):
 
     search_mark_rule(prog, rep, "C09.h")
 
+    # ------------------------------------------------------------------ C09.p per-piece work uses the piece
+    pw = piecewise_loops([f for f in prog.functions() if f.file in DATA_PATH_FILES + ("lib/ext2fs/inode.c",)])
+    rep.floor("C09.p piecewise loops in the data path", len(pw), 4)
+    for (f, tot, part, bad, ncalls) in pw:
+        rep.ob("C09.p", site(f, "loop over pieces `%s` of `%s` hands callees the piece" % (part, tot)), not bad,
+               "%d calls in the loop body; calls given the running total `%s`: %s" %
+               (ncalls, tot, [(c.line, (T.call_names(c.ev["x"]) or ["?"])[0]) for c in bad]))
+
     # ------------------------------------------------------------------ C09.w offset width
     fns = [f for f in prog.functions() if f.file in DATA_PATH_FILES]
     hits, n_and = width.zx_masks(fns)
